@@ -943,49 +943,49 @@ def coq_case(case, P, R):
 
 
 
-# ====================================================================== scale probe (known divergence beyond 10^6 nodes)
-CAP_ID = "C12-python-iteration-cap"
+# ====================================================================== large witnesses (thorough tier only)
+def _path_witness(n):
+    """Path graph 0 -> 1 -> ... -> n-1 under both back-ends: bfs_edges / dfs_edges / dijkstra_edges, without target and
+    with the last node as target.  (Regression of dd63c7e: the Python paths used to stop after 1_000_000 iterations.)"""
+    from solvor.bfs import bfs_edges, dfs_edges
+    from solvor.dijkstra import dijkstra_edges
 
-
-def _scale_probe():
-    """Path graph 0 -> 1 -> ... -> N-1 with N = 1_000_002: solvor.bfs.bfs()/dfs() (and dijkstra()) stop after
-    max_iter = 1_000_000 iterations, the Rust kernels have no cap.  Returns a dict of observations."""
-    from solvor.bfs import bfs_edges
-
-    n = 1_000_002
     edges = [(i, i + 1) for i in range(n - 1)]
+    wedges = [(i, i + 1, 1) for i in range(n - 1)]
     out = {}
     for b in ("python", "rust"):
-        r = bfs_edges(n, edges, 0, backend=b)
-        out[f"reach_{b}"] = (r.status.name, len(r.solution) if r.solution is not None else None)
-        r = bfs_edges(n, edges, 0, target=n - 1, backend=b)
-        out[f"target_{b}"] = (r.status.name, canon(r.objective))
+        for name, fn, es in (("bfs_edges", bfs_edges, edges), ("dfs_edges", dfs_edges, edges), ("dijkstra_edges", dijkstra_edges, wedges)):
+            r = fn(n, es, 0, backend=b)
+            out[f"{name}/none/{b}"] = (r.status.name, len(r.solution) if r.solution is not None else None)
+            r = fn(n, es, 0, target=n - 1, backend=b)
+            out[f"{name}/target/{b}"] = (r.status.name, canon(r.objective), len(r.solution) if r.solution is not None else None)
     return out
 
 
-def scale_probe(ctx):
-    r = _in_child(_scale_probe, timeout=120.0)
-    ctx.evaluations += 4
-    if r[0] != "ok":
-        ctx.notes.append(f"scale probe (10^6+2 nodes) did not finish: {r}")
-        return
-    o = r[1]
-    ctx.extra["scale_probe"] = o
-    if o["reach_python"] == o["reach_rust"] and o["target_python"] == o["target_rust"]:
-        return
-    n = 1_000_002
-    described = (o["reach_rust"] == ("OPTIMAL", n) and o["target_rust"] == ("OPTIMAL", n - 1)
-                 and o["reach_python"] == ("OPTIMAL", n - 1) and o["target_python"] == ("MAX_ITER", "inf"))
-    what = (f"bfs_edges on the path graph with {n} nodes: no target python {o['reach_python']} vs rust {o['reach_rust']} (status, number of nodes); "
-            f"target={n - 1}: python {o['target_python']} vs rust {o['target_rust']} (status, objective) - bfs() stops after max_iter=1_000_000 iterations")
-    if described:
-        opens = [f for f in ctx.open_findings() if "cap" in (f.get("id", "") + f.get("class", "")).lower() or "max_iter" in f.get("class", "")]
-        ctx.known_hit(opens[0]["id"] if opens else CAP_ID, what)
-        if not opens:
-            ctx.notes.append("scale probe: reported under the built-in id " + CAP_ID + " (entry proposed to the coordinator for known_findings.json); "
-                             "the theorems about bfs/dfs/dijkstra carry the hypothesis n <= 10^6 for this reason")
-    else:
-        ctx.violation(what, {"probe": o, "n": n, "edges": "[(i, i+1) for i in range(n-1)]"})
+def large_witnesses(ctx):
+    d = VERIF / "corpus" / "C12"
+    for f in sorted(d.glob("*.json")) if d.exists() else []:
+        o = json.loads(f.read_text())
+        if o.get("tier") != "thorough" or o.get("kind") != "path_graph":
+            continue
+        if ctx.tier != "thorough":
+            ctx.count("corpus_thorough_only_skipped", f.name)
+            continue
+        n = int(o["n"])
+        r = _in_child(_path_witness, n, timeout=300.0)
+        ctx.evaluations += 12
+        if r[0] != "ok":
+            ctx.violation(f"large witness {f.name} (path graph, {n} nodes): {r}", {"witness": o})
+            continue
+        res = r[1]
+        ctx.extra.setdefault("large_witnesses", {})[f.name] = res
+        for name, found in (("bfs_edges", "OPTIMAL"), ("dfs_edges", "FEASIBLE"), ("dijkstra_edges", "OPTIMAL")):
+            for b in ("python", "rust"):
+                a, t = res[f"{name}/none/{b}"], res[f"{name}/target/{b}"]
+                if tuple(a) != ("OPTIMAL", n) or tuple(t) != (found, n - 1, n):
+                    ctx.violation(f"{name}(n={n}, path graph 0->1->..->{n - 1}, source 0, backend={b!r}): without target (status, #nodes) = {tuple(a)}, expected "
+                                  f"('OPTIMAL', {n}); target={n - 1}: (status, objective, len(path)) = {tuple(t)}, expected ({found!r}, {n - 1}, {n})",
+                                  {"witness": o, "observed": res})
 
 
 # ====================================================================== the check
@@ -1082,7 +1082,7 @@ def run(ctx: Ctx):
                     "rust": outs["rust"][1] if outs["rust"][0] == "ok" else outs["rust"]}, 4)
         results.append((case, outs, bool(viol)))
 
-    scale_probe(ctx)
+    large_witnesses(ctx)
 
     # ---- correspondence, kernel-checked, one lemma family per function: (python model ~ backend='python') && (rust model ~ backend='rust')
     disagree = []
